@@ -315,6 +315,8 @@ def s_many(draw):
 
 def t_tx(ctx):
     ctx.hyp(s_tx(), ctx.n(400, 4000))
+    if ctx.shard == 0:
+        ctx.exhaustive.append('every strict prefix of every generated encoding of <=600 bytes (longer: all field boundaries +-1 and 48 further cuts)')
 
 
 def t_small(ctx):
